@@ -21,6 +21,10 @@ below are about the model alone. -/
 /-- every action the model's table anchors in a function is an element of that function's set of operations -/
 theorem ops_cover : Pox.HandoffSites.opsCover = true := by decide
 
+/-- conversely: every element of every entry point's set is a model action (`siteOp`) or in the commented list
+`HandoffSites.ignored`; every ignored / modelled element occurs in some set (no stale entries) -/
+theorem ops_accounted : Pox.HandoffSites.opsAccounted = true := by decide
+
 /-- every action of the model is anchored at exactly one statement (or is one of the two harness-defined actions) -/
 theorem sites_anchored :
     (∀ s ∈ Pox.HandoffSites.allSites, s ∈ Pox.HandoffSites.anchored ∨ s ∈ Pox.HandoffSites.harnessSites) ∧
